@@ -155,6 +155,22 @@ func genC10(g *Gen) {
 		func(f int) Step { return Step{Op: "Rolling", Recv: f, Dst: toBS("Z"), Src: toBS("nosuch")} },
 		func(f int) Step { return Step{Op: "Rolling", Recv: f, Dst: toBS("$z"), Src: toBS("A"), A: 2} },
 		func(f int) Step { return Step{Op: "WithRowNums", Recv: f, Dst: toBS("")} },
+		func(f int) Step { return Step{Op: "Filter", Recv: f, Clause: &Clause{K: "or", Subs: []Clause{{K: "or"}}}} },
+		func(f int) Step {
+			return Step{Op: "Filter", Recv: f, Clause: &Clause{K: "or", Subs: []Clause{{K: "or"}, {K: "leaf", Col: toBS("A"), CmpK: "str", Cmp: ">", Arg: &Val{T: "int", I: 0}}}}}
+		},
+		func(f int) Step {
+			return Step{Op: "Filter", Recv: f, Clause: &Clause{K: "or", Subs: []Clause{{K: "leaf", Col: toBS("A"), CmpK: "str", Cmp: ">", Arg: &Val{T: "int", I: 0}}, {K: "or"}}}}
+		},
+		func(f int) Step {
+			return Step{Op: "Filter", Recv: f, Clause: &Clause{K: "not", Subs: []Clause{{K: "or", Subs: []Clause{{K: "or"}, {K: "leaf", Col: toBS("A"), CmpK: "str", Cmp: ">", Arg: &Val{T: "int", I: 0}}}}}}}
+		},
+		func(f int) Step {
+			return Step{Op: "Filter", Recv: f, Clause: &Clause{K: "and", Subs: []Clause{{K: "leaf", Col: toBS("A"), CmpK: "str", Cmp: ">", Arg: &Val{T: "int", I: 0}}, {K: "or", Subs: []Clause{{K: "or"}}}}}}
+		},
+		func(f int) Step {
+			return Step{Op: "Filter", Recv: f, Clause: &Clause{K: "and", Subs: []Clause{{K: "and"}, {K: "leaf", Col: toBS("A"), CmpK: "str", Cmp: ">", Arg: &Val{T: "int", I: 0}}}}}
+		},
 		func(f int) Step { return Step{Op: "Filter", Recv: f, Clause: &Clause{K: "and"}} },
 		func(f int) Step { return Step{Op: "Filter", Recv: f, Clause: &Clause{K: "or"}} },
 		func(f int) Step { return Step{Op: "Filter", Recv: f, Clause: &Clause{K: "not", Subs: []Clause{{K: "and"}}}} },
